@@ -139,6 +139,8 @@ func traceStore(sdir, docfile, final, noclobber string) ([]int, []string, error)
 					kinds = append(kinds, 8) // the entry itself created and then written in place
 				case strings.Contains(m[2], "O_EXCL"):
 					kinds = append(kinds, 1)
+				case m[1] == filepath.Join(sdir, final) && (strings.Contains(m[2], "O_WRONLY") || strings.Contains(m[2], "O_RDWR")) && !strings.Contains(m[2], "O_TRUNC"):
+					kinds = append(kinds, 9) // the entry opened for writing as it is: overwritten in place, old bytes beyond the write stay
 				case strings.Contains(m[2], "O_TRUNC"):
 					kinds = append(kinds, 7)
 				default:
@@ -297,6 +299,12 @@ func runC20(seed int64, n int, dir string, tier string) *Report {
 		otherID := "other"
 		_, oldB := smallDoc(id, "OLD-"+strings.Repeat("o", g.Int(6)))
 		_, newB := smallDoc(id, "NEW-"+strings.Repeat("n", g.Int(6)))
+		if round%4 == 1 {
+			// an overwrite by a document of exactly the same encoded size (a version bump, a changed hash)
+			k := g.Int(6)
+			_, oldB = smallDoc(id, "OLD-"+strings.Repeat("o", k))
+			_, newB = smallDoc(id, "NEW-"+strings.Repeat("n", k))
+		}
 		_, othB := smallDoc(otherID, "other")
 		final, other := entryName(id), entryName(otherID)
 		docfile := filepath.Join(base, "new.pb")
@@ -375,6 +383,35 @@ func runC20(seed int64, n int, dir string, tier string) *Report {
 						}
 					}
 					_ = os.RemoveAll(vd)
+				}
+			}
+			// the entry overwritten in place without truncation: after a crash inside the write it holds the first
+			// k bytes of the new document followed by the rest of the old one
+			if err == nil && containsInt(kinds, 9) {
+				mk := func(ver string) []byte {
+					d := &sbom.Document{Metadata: &sbom.Metadata{Id: id, Name: "doc"}, NodeList: &sbom.NodeList{RootElements: []string{"n0"}}}
+					for k := 0; k < 6; k++ {
+						d.NodeList.Nodes = append(d.NodeList.Nodes, &sbom.Node{Id: fmt.Sprintf("n%d", k), Name: "node", Version: ver})
+					}
+					b, _ := proto.MarshalOptions{Deterministic: true}.Marshal(d)
+					return b
+				}
+				o, nw := mk("1.0.0"), mk("2.0.0")
+				for k := 1; k < len(nw); k++ {
+					vd := filepath.Join(base, "mixed")
+					_ = os.Mkdir(vd, 0o755)
+					setup(vd)
+					_ = os.WriteFile(filepath.Join(vd, final), append(append([]byte{}, nw[:k]...), o[k:]...), 0o644)
+					rep.OracleEvals++
+					r := runChild(false, "retrieve", vd, hex.EncodeToString([]byte(id)))
+					_ = os.RemoveAll(vd)
+					if r.Outcome == "ok" {
+						raw, _ := decodeB64(r.Doc)
+						if string(raw) != string(o) && string(raw) != string(nw) {
+							rep.Fail(Failure{What: "after a crash during Store, Retrieve returned a mixture of the previous and the new document (and no error)", Detail: fmt.Sprintf("entry overwritten in place without truncation: crash after %d of %d bytes", k, len(nw)), Input: map[string]any{"overwrite": overwrite, "id": id, "new_prefix_bytes": k, "observed_calls": lines}})
+							break
+						}
+					}
 				}
 			}
 			if got, _ := classify(sdir, id); got != "new" {
